@@ -20,9 +20,11 @@ TRUSTED = [
 def native_plan(tier):
     bin_dom = 'every sequence of <= %d events {derive (a, b) over 4 items, end of iteration, end of stratum} + a closing stratum end, binary provider'
     ter_dom = 'every sequence of <= %d events {derive (k, a, b) over 2 keys x 3 items, end of iteration, end of stratum} + a closing stratum end, ternary provider'
+    dir_dom = 'the union-find alone (index_insert = EqRel::add on `combined`): every history of <= 5 add(a, b) over the 30 ordered pairs a != b of 6 items; contains_key on all 36 pairs, the [0] lookup of every element and count_exact after every add'
+    direct = ('eqrel_direct_le5', ';'.join(['0-30'] * 5), dir_dom)
     if tier == 'thorough':
-        return [('eqrel_protocol_le5', ';'.join(['0-18'] * 5), bin_dom % 5), ('eqrel_ternary_protocol_le5', ';'.join(['0-20'] * 5), ter_dom % 5)]
-    return [('eqrel_protocol_le4', ';'.join(['0-18'] * 4), bin_dom % 4), ('eqrel_ternary_protocol_le4', ';'.join(['0-20'] * 4), ter_dom % 4)]
+        return [direct, ('eqrel_protocol_le5', ';'.join(['0-18'] * 5), bin_dom % 5), ('eqrel_ternary_protocol_le5', ';'.join(['0-20'] * 5), ter_dom % 5)]
+    return [direct, ('eqrel_protocol_le4', ';'.join(['0-18'] * 4), bin_dom % 4), ('eqrel_ternary_protocol_le4', ';'.join(['0-20'] * 4), ter_dom % 4)]
 
 
 def run(pid, tier):
@@ -37,8 +39,11 @@ def run(pid, tier):
             crate, _ = unit_uf.prepare_crate()
             binary, _ = kani.build_native(crate, 'ufcheck')
             def one(p):
-                return p, kani.native_exhaust(binary, p[0], p[1], timeout=300 if tier == 'quick' else 2400)
-            with ThreadPoolExecutor(max_workers=2) as ex2:
+                to = 300 if tier == 'quick' else 2400
+                if p[0].startswith('eqrel_direct') or tier == 'thorough':
+                    return p, kani.native_exhaust_sharded(binary, p[0], p[1], shards=10 if p[0].startswith('eqrel_direct') else 6, timeout=to)
+                return p, kani.native_exhaust(binary, p[0], p[1], timeout=to)
+            with ThreadPoolExecutor(max_workers=3) as ex2:
                 for (h, alpha, dom), r in ex2.map(one, native_plan(tier)):
                     native[h] = dict(r, domain=dom)
                     for f in r['failures']:
@@ -61,6 +66,12 @@ def run(pid, tier):
             out.proof_lost.append(msg + ': the proof of EqRel is unavailable on this tree; the bounded protocol companion passed')
         elif not native_failures:
             out.inconclusive.append(msg + '\n' + (v['inconclusive'] or ''))
+    for dg in v.get('degraded') or []:
+        msg = 'the proof annotations of %s no longer fit the code (%s): its contract is ASSUMED in this run, the other functions are still verified against it' % (dg['fn'], dg['why'][:200])
+        if natives_ran_clean:
+            out.proof_lost.append(msg + '; the bounded protocol companion passed')
+        elif not native_failures:
+            out.inconclusive.append(msg)
     for f in v['failures']:
         if native_failures:
             # the demonstrated failing input is the report; the lost obligation is attached to it
@@ -98,6 +109,7 @@ def run(pid, tier):
                                'the code the macro generates around the provider'],
         'rewrites_applied': summarize_rewrites(log.rewrites) if log else {},
         'dropped_functions': log.dropped if log else [],
+        'contracts_assumed_in_this_run_because_annotations_lost': [d['fn'] for d in (v.get('degraded') or [])],
         'assumption_scan': unit_index.scan_assumptions(body),
         'bounded_native_companion_not_counted': {h: {'evaluated': r['evaluated'], 'domain': r['domain'], 'failures': len(r['failures'])} for h, r in native.items()},
         'verus_functions': [[f[0], f[1], f[2]] for f in funcs],
